@@ -44,7 +44,7 @@ def load_registry():
         for k, v in ns.items():
             if k.startswith("__"):
                 continue
-            if k in ("EXHAUSTIVE", "BUILDERS") and isinstance(v, dict):
+            if k in ("EXHAUSTIVE", "BUILDERS", "TABLES") and isinstance(v, dict):
                 reg.native_env.setdefault(k, {}).update(v)  # merged across helper modules
             else:
                 reg.native_env[k] = v
@@ -303,6 +303,36 @@ def run_property(prop, tier, seed, update_baseline=False):
                 path = write_replay(prop, "e2e-" + v["key"], {"property": prop, "from": "e2e bounded contract", **v})
                 violations.append((path, True, v["key"]))
 
+    # ---- table obligations: finite ground facts about the real tables / compiled regexes, decided by evaluation
+    tables = None
+    tfuncs = reg.native_env.get("TABLES", {}).get(prop, [])
+    if tfuncs:
+        tables = {"facts": 0, "hold": 0, "functions": [f.__name__ for f in tfuncs], "samples": []}
+        for f in tfuncs:
+            try:
+                facts = f()
+            except Exception as e:  # noqa: BLE001
+                errors.append(f"table obligation {f.__name__} crashed: {type(e).__name__}: {e}")
+                continue
+            if not facts:
+                errors.append(f"table obligation {f.__name__} produced no facts")
+            for fid_, ok, detail in facts:
+                tables["facts"] += 1
+                oid = f"table.{f.__name__}#{fid_}"
+                if ok:
+                    tables["hold"] += 1
+                    if len(tables["samples"]) < 3:
+                        tables["samples"].append(oid)
+                    continue
+                kf = match_known(known, prop, oid)
+                if kf is not None:
+                    known_hits.append((kf, oid))
+                    continue
+                path = write_replay(prop, oid, {"property": prop, "obligation": oid, "kind": "table",
+                                                "verifier_output": f"ground fact evaluated on the real table: False ({detail})",
+                                                "witness": {"fact": fid_, "observed": detail}})
+                violations.append((path, True, oid))
+
     # ---- frame / effect obligations (static effect checker pyvc/effects.py): C14 (purity) and C20 (advisory-only warnings)
     eff = None
     EFFECT_KINDS = {"C14": ("E1", "E1x", "E2", "E3", "E3x"), "C20": ("E5",)}
@@ -365,6 +395,10 @@ def run_property(prop, tier, seed, update_baseline=False):
         print(f"BASELINE property={prop} written: {sum(1 for v in bl.values() if v['discharged'])}/{len(bl)} discharged")
 
     n_ob = len(obs) - len(guards_inconclusive)
+    if tables is not None:
+        n_ob += tables["facts"]
+        discharged += tables["hold"]
+        by_solver["evaluation (finite table facts, exhaustive)"] = tables["hold"]
     if eff is not None:
         n_ob += eff["obligations"]
         discharged += eff["discharged"]
@@ -392,7 +426,16 @@ def run_property(prop, tier, seed, update_baseline=False):
         "bounded_native_contract_search": bounded,
         "bounded_e2e": {k: v for k, v in (e2e or {}).items() if k != "violations"},
         "frame_obligations": eff,
-        "samples": samples,
+        "table_obligations": tables,
+        "samples": samples or list((e2e or {}).get("samples", []))
+                   or [{"bounded_contract": k, **v} for k, v in list(bounded["functions"].items())[:3] if isinstance(v, dict)],
+        # generic exploration-style keys (bounded parts): native contract evaluations + e2e conversions
+        "evaluations": bounded["evaluations"] + (e2e or {}).get("evaluations", 0),
+        "distinct_nontrivial": sum(v.get("distinct", 0) for v in bounded["functions"].values() if isinstance(v, dict))
+                               + (e2e or {}).get("distinct_nontrivial", 0),
+        "rule": "bounded parts only: (a) native contract search = small-scope exhaustive generators (contracts/native_*.py) plus "
+                "seeded random inputs, distinct = distinct argument tuples that satisfy the precondition; (b) e2e = distinct form "
+                "texts converted and judged by the property's independent oracle (bounded/oracles)",
         "explanation": (
             "Deductive part: obligations generated by pyvc from the real function bodies in /repo and the "
             "sidecar contracts, discharged by z3/cvc5. Bounded parts (native contract search, e2e corpus) are "
